@@ -5,3 +5,9 @@ pub mod anyhow {
     pub struct Error { _p: () }
     pub type Result<T> = std::result::Result<T, Error>;
 }
+// equality of two unit results, written so that it does not depend on the verifier knowing that all values of `()` are equal
+// (Verus 0.2026.09.13 cannot prove `x is Ok ==> x == Ok(())` for an opaque x: a `match r { Ok(()) => Ok(()), Err(e) => Err(e) }`
+// in the code would otherwise fail a postcondition `r == spec` that the equivalent `r?; Ok(())` passes)
+pub open spec fn same_outcome<E>(a: Result<(), E>, b: Result<(), E>) -> bool {
+    match (a, b) { (Ok(_), Ok(_)) => true, (Err(x), Err(y)) => x == y, _ => false }
+}
